@@ -7,6 +7,16 @@ LEVEL = "other"
 
 # crossings the statement names explicitly (each must compile, warning-free)
 DEDICATED = [
+    # lint attributes of the user and generated code (hunt 3): an expectation fulfilled by the item itself, forbid of a lint the generator
+    # used to allow, a diverging default value, allow(warnings) on a field of a deprecated type, lint attributes on a user-written operator impl
+    ("expect_on_item", "#[expect(non_camel_case_types)]\n#[derive_ex::derive_ex(Clone, Debug, Default, PartialEq, Eq, PartialOrd, Ord, Hash)]\npub struct my_type { pub a: u8 }\n#[derive(derive_ex::Ex)]\n#[derive_ex(Clone, PartialEq)]\n#[expect(non_camel_case_types)]\npub enum my_enum { A, B(u8) }"),
+    ("forbid_unused_parens", "#[forbid(unused_parens)]\n#[derive_ex::derive_ex(PartialEq, Eq, PartialOrd, Ord, Hash)]\npub struct X(pub u8, #[ord(key = crate::support::gk(&$))] pub u8, #[ord(key = ($.0))] pub (u8, u8), #[ord(reverse)] pub u8);\n#[forbid(unused_parens)]\n#[derive(derive_ex::Ex)]\n#[derive_ex(PartialEq, Eq, PartialOrd, Ord, Hash)]\npub enum E { A(u8, #[ord(key = $.1)] (u8, u8)), B { #[ord(by = crate::support::gby_ord)] #[hash(key = $)] x: u8 } }"),
+    ("default_diverges", "#[derive_ex::derive_ex(Default, Clone)]\n#[default(todo!())]\npub struct X(pub u8);\n#[derive_ex::derive_ex(Default)]\n#[default(match 0u8 { _ => Y(1) }.pass())]\npub struct Y(pub u8);\nimpl Y { pub fn pass(self) -> Y { self } }"),
+    ("allow_warnings_on_field", "#[deprecated]\n#[derive(Clone, Debug, PartialEq, Default)]\npub struct Old(pub u8);\n#[derive_ex::derive_ex(Clone, Debug, PartialEq, Default)]\npub struct X { #[allow(warnings)] pub a: Old, pub b: u8 }\n#[derive(derive_ex::Ex)]\n#[derive_ex(Clone, PartialEq)]\npub enum E { A(#[allow(warnings)] Old), #[allow(warnings)] B { o: Old } }"),
+    ("lint_attrs_on_user_impl", "#[deprecated]\n#[derive(Clone)]\npub struct Old(pub u8);\n#[allow(deprecated)]\n#[derive_ex::derive_ex(Add, AddAssign)]\nimpl core::ops::Add<Old> for Old { type Output = Old; fn add(self, r: Old) -> Old { Old(self.0 + r.0) } }\n#[derive_ex::derive_ex(Sub)]\nimpl core::ops::Sub<Old> for Old { #![allow(deprecated)] type Output = Old; fn sub(self, r: Old) -> Old { Old(self.0 - r.0) } }\n"
+     "#[derive(Clone)]\npub struct W<T, const N: usize>(pub [T; N]);\n#[allow(non_camel_case_types, non_upper_case_globals)]\n#[derive_ex::derive_ex(Mul)]\nimpl<t: Copy, const n: usize> core::ops::Mul<&W<t, n>> for &W<t, n> { type Output = W<t, n>; fn mul(self, _r: &W<t, n>) -> W<t, n> { W(self.0) } }"),
+    ("hrtb_where_clause_operator", "#[derive_ex::derive_ex(Add)]\npub struct A<T>(pub T) where for<'x> &'x T: core::ops::Add<&'x T, Output = T>;\n#[derive_ex::derive_ex(Neg, Not)]\npub struct B<T, const N: usize> where for<'x> &'x T: core::ops::Neg<Output = T> + core::ops::Not<Output = T>, [u8; N]: Sized { pub a: T, pub b: T }"),
+    ("self_in_type_macro_of_user_impl", "macro_rules! opt { ($t:ty) => { Option<$t> }; }\nmacro_rules! id { ($t:ty) => { $t }; }\n#[derive(Clone)]\npub struct A(pub u8);\n#[derive_ex::derive_ex(Sub)]\nimpl core::ops::Sub<A> for A { type Output = opt!(Self); fn sub(self, r: A) -> Option<A> { Some(A(self.0 - r.0)) } }\n#[derive(Clone)]\npub struct B(pub u8);\n#[derive_ex::derive_ex(Sub, SubAssign)]\nimpl core::ops::Sub<id!(Self)> for B { type Output = B; fn sub(self, r: B) -> B { B(self.0 - r.0) } }\npub fn all_forms(a: A, b: A, c: B, d: B) -> (Option<A>, Option<A>, Option<A>, B) { let mut e = &c - &d; e -= &d; e -= d.clone(); (&a - &b, &a - b.clone(), a.clone() - &b, &c - d - e) }"),
     # default value expressions that rely on the explicit bound written next to them (every level a bound can be written at)
     ("default_value_uses_field_bound", "pub trait Make { fn make() -> Self; }\n#[derive_ex::derive_ex(Default)]\npub struct X<T>(#[default(T::make(), bound(T: Make))] pub T, pub u8);"),
     ("default_value_uses_field_derive_ex_bound", "pub trait Make { fn make() -> Self; }\n#[derive_ex::derive_ex(Default, Clone)]\npub struct X<T> { #[default(T::make())] #[derive_ex(Default(bound(T: Make)))] pub a: T, pub b: Option<T> }"),
@@ -47,10 +57,11 @@ DEDICATED = [
     ("deprecated_variant", "#[derive_ex::derive_ex(Clone, Debug, PartialEq, Eq, PartialOrd, Ord, Hash)]\npub enum X { #[deprecated] Old(u8), New { #[deprecated] a: u8 } }"),
     ("item_level_lint_attrs", "#[deprecated] pub struct Old(pub u8);\n#[allow(deprecated)] impl Clone for Old { fn clone(&self) -> Self { Old(self.0) } }\n#[allow(deprecated)]\n#[derive_ex::derive_ex(Clone)]\npub struct A(pub Old);\n#[derive_ex::derive_ex(Clone)]\npub struct B(#[allow(deprecated)] pub Old);\n#[allow(non_camel_case_types)]\n#[derive_ex::derive_ex(Clone, Debug, PartialEq)]\npub struct P<t>(pub t);\n#[allow(non_upper_case_globals)]\n#[derive(derive_ex::Ex)]\n#[derive_ex(Clone, Default, PartialEq, Eq, Hash)]\npub enum E<const n: usize> { #[default] A([u8; n]), B }"),
     ("single_use_lifetimes", "#![deny(single_use_lifetimes)]\n#[derive_ex::derive_ex(Clone, Debug, PartialEq, Eq, PartialOrd, Ord, Hash)]\npub struct X<'a>(pub &'a str);\n#[derive_ex::derive_ex(PartialEq, Eq)]\npub enum Y<'a, 'b: 'a> { A(&'a u8), B { b: &'b str } }"),
-    ("impl_item_paren_and_macro_ty", "macro_rules! ops { ($l:ty, $r:ty) => { #[derive_ex::derive_ex(Add)] impl core::ops::Add<$r> for $l { type Output = Cq; fn add(self, rhs: $r) -> Cq { Cq(self.0 ^ rhs.0) } } } }\nops!(&Cq, &Cq);\n#[derive(Clone)] pub struct Cq(pub u8);\n#[derive_ex::derive_ex(Sub)]\nimpl core::ops::Sub<(&Cr)> for (&Cr) { type Output = Cr; fn sub(self, rhs: &Cr) -> Cr { Cr(self.0 ^ rhs.0) } }\n#[derive(Clone)] pub struct Cr(pub u8);\npub fn uses(a: Cq, b: Cr) -> (Cq, Cr) { (a.clone() + a, b.clone() - b) }"),
+    ("impl_item_paren_and_macro_ty", "macro_rules! ops { ($l:ty, $r:ty) => { #[derive_ex::derive_ex(Add)] impl core::ops::Add<$r> for $l { type Output = Cq; fn add(self, rhs: $r) -> Cq { Cq(self.0 ^ rhs.0) } } } }\nops!(&Cq, &Cq);\n#[derive(Clone)] pub struct Cq(pub u8);\n#[allow(unused_parens)]\n#[derive_ex::derive_ex(Sub)]\nimpl core::ops::Sub<(&Cr)> for (&Cr) { type Output = Cr; fn sub(self, rhs: &Cr) -> Cr { Cr(self.0 ^ rhs.0) } }\n#[derive(Clone)] pub struct Cr(pub u8);\npub fn uses(a: Cq, b: Cr) -> (Cq, Cr) { (a.clone() + a, b.clone() - b) }"),
     ("forbid_naming_lints", "#![forbid(non_snake_case, non_camel_case_types, non_upper_case_globals)]\n#[derive_ex::derive_ex(Clone, Debug, Default, PartialEq, Eq, PartialOrd, Ord, Hash)]\npub enum X<T> { #[default] A { a: u8, #[ord(by = crate::support::gby_ord)] #[hash(key = crate::support::gk(&$))] bb: Option<T> }, B(u8, #[ord(key = crate::support::gk(&$))] u8) }"),
     ("forbid_deprecated", "#![forbid(deprecated)]\n#[derive_ex::derive_ex(Clone, Debug, Default, PartialEq, Eq, PartialOrd, Ord, Hash, Add, Neg)]\npub struct X { pub a: i8, pub b: i8 }"),
     # recorded findings (known_findings.jsonl), re-observed on every run
+    ("kf_field_level_allow", "#[derive_ex::derive_ex(Clone, PartialEq)]\npub struct X<T> { #[allow(unused_parens)] pub a: (T), #[allow(unused_braces)] pub b: [T; { 2 }] }"),
     ("kf_repr_packed", "#[derive_ex::derive_ex(Clone, PartialEq, Debug)]\n#[derive(Copy)]\n#[repr(packed)]\npub struct X { pub a: u8, pub b: u32 }"),
     ("kf_default_none_nested_option", "#[derive_ex::derive_ex(Default)]\npub struct X { #[default(None)] pub a: Option<Option<u8>> }"),
     ("type_macro_field", "macro_rules! v { ($t:ty) => { Vec<$t> } }\n#[derive_ex::derive_ex(Clone)]\npub struct X<T>(pub v!(T));"),
